@@ -232,7 +232,7 @@ def run(tier: str) -> int:
     b = families.c01_bounds(tier, lean=True)
     return gc.run_model_check(
         C06(), specs(tier), tier, "exploration",
-        bounds=[{"top": [{"n": n, "modifiers": list(m), "trivia": list(t)} for n, m, t in b["top"]], "contexts": [{"hole_size": h, "trivia": list(t)} for h, t in b["ctx"]],
+        bounds=[{"top": [{"n": n, "modifiers": list(m), "trivia": list(t)} for n, m, t in b["top"]], "contexts": [{"hole_size": h, "trivia": list(t)} for h, t in b["ctx"]], "stack_contexts_also_under": b.get("ctx_stack_under", []),
                  "start_positions": "every k in 0..len(text)", "bundled": "json, toml, http, examples/json, ini, csv on their example files"}],
         rule=families.c01_rule_text() + "; every start position 0..len; plus the bundled grammars on their example files. Oracle (invariants on every successful parse, all four modes): start_pos <= start <= end <= len, "
              "text == input[start:end] == str(pair) == span().as_str(); children in input order, non-overlapping, inside the parent; names are non-silent rules of the grammar or EOI; tags are tags written in the grammar; "
